@@ -94,6 +94,16 @@ def run(scn, stats):
     defn, r = common.run(scn, stats, observers=[fo, dw, w], stop=stop)
     if dw.dup:
         stats.excluded["R1"] += 1
+    def render():
+        # rendering the output reads the recorded contexts: it must leave them as they are
+        if r.engine_exception is None and not dw.dup and r.at_rest() and r.d.status() in provider.TERMINAL:
+            try:
+                r.step({"op": "output"})
+                stats.label("output-rendered")
+            except provider.EngineException as e:
+                stats.engine_exception(e, scn)
+
+    render()
     # a rerun at full rest, then continue (rerun must append)
     if scn.get("rerun") and r.engine_exception is None and not dw.dup and r.at_rest() and r.d.status() == "failed":
         try:
@@ -104,6 +114,7 @@ def run(scn, stats):
             stats.excluded[k.fid] += 1
         except provider.EngineException as e:  # engine exceptions are owned by C15
             stats.engine_exception(e, scn)
+        render()
     stats.label("status:" + r.d.status())
     for e in w.events:
         stats.label(e)
